@@ -4,13 +4,45 @@ TRANSLATORS = ['timestep2lean.py']
 HARNESS = 'harness/c04.py'
 TRUSTED_BASE = [
     'Lean 4.33 kernel; axioms propext, Classical.choice, Quot.sound only (audited per theorem each run)',
+    'translate/timestep2lean.py (Python ast -> Program); subset explicit, anything else fails the run; '
+    'validated every run: the programs it emits are executed by the model and compared event by event '
+    'with the compiled integrator built from the same source',
+    'hand-written model lean/PysphVerif/Model/Stepper.lean of the class generated from integrator_cython.mako / '
+    'integrator_cython_helper.py and of Integrator.compute_accelerations/update_domain, tied by tracer steppers, '
+    'tracer equations and delegating proxies through the real SPHCompiler (harness/c04.py)',
+    'the tracers themselves (generated stepper/equation source logging into one shared constant array; '
+    'delegating NNPS/evaluator proxies installed on the Python Integrator object)',
+    'compyle, Cython, g++ (third party): exercised by the tie, not modelled',
 ]
 ASSUMPTIONS = [
-    'serial CPU (cython) backend, no OpenMP',
+    'serial CPU (cython) backend, no OpenMP, no MPI (parallel_manager is None)',
+    'particle arrays are aligned (real particles first): C06 invariant, hypothesis WorldAligned of the theorems',
+    'one_timestep is written in the documented language (calls of initialize/stageN/compute_accelerations/'
+    'update_domain/do_post_stage with constant arguments, stage_dt arithmetic over t, dt and literals, '
+    'constant-bound for loops); the translator rejects anything else',
+    'numerical bodies of shipped steppers: differential execution (bit-exact) on sampled inputs only',
 ]
-READY = False
+READY = True
 DESIGN_REF = '6/C04'
-TECHNIQUE = 'Lean 4 proof over a model regenerated from source (one_timestep programs) + hand-written model of the generated integrator class, tied by tracer steppers through the real SPHCompiler'
-LEVEL_TEXT = 'in progress'
-LEVEL_NOTE = 'in progress'
-TIMEOUT = {'quick': 1500, 'thorough': 3 * 3600}
+TECHNIQUE = ('Lean 4 proof over programs regenerated from the one_timestep sources + hand-written model of the '
+             'generated integrator class; tracer-based correspondence through the real SPHCompiler')
+LEVEL_TEXT = ("Lean 4 theorems for every program of the one_timestep language, every stepper assignment, every world "
+              "(state + the seven operations the generated code invokes), every t/dt and every sequence of steps: "
+              "stepper_refines_literal (the generated class = literal execution, under C06 alignment; "
+              "alignment_is_necessary shows the hypothesis cannot be dropped), stage_touches_exactly_real, "
+              "dest_order_perm/sorted, stage_time_is_last_post_stage, step_ignores_stale_registers, multi_step_compose, "
+              "trace_closed_form, callback_once_per_stage, well_staged_callbacks, and by `decide` over the table "
+              "regenerated from the source shipped_programs_well_staged / shipped_programs_end_at_t_plus_dt. "
+              "The programs are re-translated from /repo on every run; the model of the generated class is tied to the "
+              "real pipeline (mako template -> compyle -> Cython -> g++) by tracer steppers/equations whose complete "
+              "event log (method, array, particle index, t, dt bit for bit, hook/NNPS/evaluator/callback events) must "
+              "equal the model's trace, for shipped integrators with the method sets of their documented steppers and "
+              "for generated 1-5 stage integrators with py_stage hooks, several evaluators, per-array steppers, hooks "
+              "that add particles; the property's own predicate is evaluated by letting CPython execute the "
+              "integrator's one_timestep literally.")
+LEVEL_NOTE = ("Partial: (1) proof covers the documented one_timestep language only (translator fails loudly outside it); "
+              "(2) the generated Cython/C itself is third-party output: covered by the tie (testing), not by proof; "
+              "(3) numerical stepper bodies: bit-exact differential execution on samples; (4) serial CPU backend only; "
+              "(5) closed-form trace theorems are for hooks that leave array sizes alone (the refinement theorem has no "
+              "such restriction). Trusted: Lean kernel + 3 standard axioms, translator, hand-written model, tracers.")
+TIMEOUT = {'quick': 2400, 'thorough': 4 * 3600}
